@@ -1,5 +1,6 @@
 import Rpcx.Driver.Util
 import Rpcx.Model.Fanout
+import Rpcx.Model.FanoutConc
 namespace Rpcx.Driver
 open Rpcx Rpcx.Fan
 
@@ -18,6 +19,33 @@ def cmdFan (ws : List String) : String :=
       -- receipts are appended in completion order by concurrent goroutines: compare as a sorted list
       let sorted := rs.foldl (fun acc x => (acc.filter (· < x)) ++ [x] ++ (acc.filter (fun y => !(y < x)))) []
       ",".intercalate sorted
+    | _ => "bad-op"
+  | _ => "bad-op"
+
+/-- `fanc <broadcast|fork|inform> <addr:ok:reply,… in completion order>`: the goroutine-level model
+    (`Model/FanoutConc`) on the schedule in which the harness releases the completions one at a time –
+    worker i records, signals, the caller's loop receives – printed like `fan` -/
+def cmdFanC (ws : List String) : String :=
+  match ws with
+  | [op, spec] =>
+    let srvs := (spec.splitOn ",").filterMap (fun e => match e.splitOn ":" with
+      | [a, k, r] => some (⟨a, k == "1", r.toNat?.getD 0⟩ : Srv)
+      | _ => none)
+    let evs := (List.range srvs.length).flatMap (fun i => [FanC.Ev.finish i, FanC.Ev.signal i, FanC.Ev.recv])
+    let verdict := fun (o : FanC.Op) => match (FanC.run o srvs evs).ret with
+      | some v => s!"success={boolStr v}"
+      | none => "no-return"
+    match op with
+    | "broadcast" => verdict .broadcast
+    | "fork" => verdict .fork
+    | "inform" =>
+      let s := FanC.run .inform srvs evs
+      match s.ret with
+      | none => "no-return"
+      | some _ =>
+        let rs := s.receipts.map (fun r => s!"{r.addr}:{boolStr r.errNil}:{if r.errNil then r.reply else 0}")
+        let sorted := rs.foldl (fun acc x => (acc.filter (· < x)) ++ [x] ++ (acc.filter (fun y => !(y < x)))) []
+        ",".intercalate sorted
     | _ => "bad-op"
   | _ => "bad-op"
 
